@@ -107,6 +107,7 @@ type lkCase struct {
 	d10      bool
 	fault    *lkFault // lookups_fault.go: write faults, busy Get consumer, reply order
 	race     *lkRace  // lookups_stop.go: the stop lands inside the processing of a reply / while the consumer pauses
+	block    *lkBlock // lookups_block.go: the server has an IP blocklist and the network tells the lookup about blocked addresses
 }
 
 func (c *lkCase) name() string { return fmt.Sprintf("%s/%s", c.api, c.desc) }
@@ -441,6 +442,9 @@ func runLookupCase(c *lkCase, base0 int) (leak int) {
 func runLookupOnce(c *lkCase, rep int, report bool) (*lkState, lkResult) {
 	if c.race != nil {
 		return runLookupRaceOnce(c, rep, report) // lookups_stop.go
+	}
+	if c.block != nil {
+		return runLookupBlockOnce(c, rep, report) // lookups_block.go
 	}
 	r := (&rng{s: c.sub}).sub(0)
 	st := &lkState{c: c, rep: rep, conn: newFakeConn(), queue: make(chan *lkQuery, 8192), gateMu: make(chan struct{}, 1),
@@ -1524,7 +1528,8 @@ func lookupsEngine(seed uint64, tier string, args []string) {
 		}
 	}
 	cases := lookupCases(seed, tier)
-	cases = append(cases, lookupStopCases(seed, tier, len(cases))...) // lookups_stop.go
+	cases = append(cases, lookupStopCases(seed, tier, len(cases))...)  // lookups_stop.go
+	cases = append(cases, lookupBlockCases(seed, tier, len(cases))...) // lookups_block.go
 	if only >= 0 && only < len(cases) {
 		cases = cases[:only+1]
 		if from < only {
@@ -1538,6 +1543,9 @@ func lookupsEngine(seed uint64, tier string, args []string) {
 	time.Sleep(2 * time.Millisecond)
 	base0 := runtime.NumGoroutine()
 	for i := from; i < len(cases); i++ {
+		if os.Getenv("VERIF_PROP") == "C19" && cases[i].block == nil {
+			continue // C19 is served by the blocklist cases only (same case numbers as in the other properties' runs)
+		}
 		if leak := runLookupCase(&cases[i], base0); leak > 0 {
 			base0 = runtime.NumGoroutine() // what leaked stays; later cases are measured against the new level
 		}
